@@ -14,7 +14,7 @@ vars == <<ch, B>>
 
 BufOf(b) == [cap |-> b[1], low |-> b[2], grow |-> b[3]]
 \* the real buffer and, for the model check, small ones in which the short pieces already need several chunks
-Bufs == {<<256, 128, 128>>} \cup (IF SmallBufs THEN {<<12, 6, 6>>, <<8, 4, 4>>} ELSE {})
+Bufs == {<<1024, 128, 128>>} \cup (IF SmallBufs THEN {<<12, 6, 6>>, <<8, 4, 4>>} ELSE {})
 \* piece texts: abstract parameter text "1," ... ; a long piece is padding of blanks in front of the text
 Txt(k, last) == IF last THEN <<48 + k>> ELSE <<48 + k, COMMA>>
 Pad(n) == [i \in 1..n |-> SPC]
